@@ -192,27 +192,24 @@ def sign_cv(key, version, hh, scheme, role, prf_name=None, premaster=None, cr=No
 
 
 def pubkey_verify(pub, version, scheme, vb, sig, key_type):
-    """The signature primitive as an oracle (C10's subject): does `sig` verify under `pub`
-    for the bytes `vb` with `scheme`?  Used to OBSERVE the oracle answer for the model."""
-    sig = bytearray(sig)
-    try:
-        if scheme is not None and scheme in (SignatureScheme.ed25519, SignatureScheme.ed448):
-            return bool(pub.hashAndVerify(sig, vb, None, 'intrinsic', None))
-        if key_type == 'ecdsa':
-            if version < (3, 4):
-                vb = vb[:pub.public_key.curve.baselen]
-            return bool(pub.verify(sig, vb, None, None, None))
-        if key_type == 'dsa':
-            return bool(pub.verify(sig, vb, None, None, None))
-        if key_type in ('Ed25519', 'Ed448'):
-            return bool(pub.hashAndVerify(sig, vb, None, 'intrinsic', None))
-        name = SignatureScheme.toRepr(scheme) if scheme else None
-        if version == (3, 4):
+    """The signature primitive as an oracle: does `sig` verify under `pub` for the bytes `vb`
+    (what the protocol hands to the primitive) with `scheme`?  Computed by the reference
+    verifiers of harness/c05_refsig.py (FIPS 186-4 / RFC 8017 / RFC 8032), NOT by the
+    signature code of /repo, so that a defect of a /repo primitive cannot hide itself."""
+    import c05_refsig as R
+    if scheme is not None and tuple(scheme) in ((8, 7), (8, 8)):
+        key_type = 'Ed25519'
+    if key_type in ('Ed25519', 'Ed448', 'ecdsa', 'dsa'):
+        return R.ref_verify(pub, key_type, None, None, bytes(vb), sig)
+    name = SignatureScheme.toRepr(scheme) if scheme else None
+    if tuple(version) == (3, 4):
+        if name is None:
+            return False
+        try:
             pad, hn = SignatureScheme.getPadding(name), SignatureScheme.getHash(name)
-            return bool(pub.verify(sig, vb, pad, hn, getattr(hashlib, hn)().digest_size))
-        if name is None or SignatureScheme.getPadding(name) == 'pkcs1':
-            return bool(pub.verify(sig, vb, 'pkcs1', None, 0))
-        hn = SignatureScheme.getHash(name)
-        return bool(pub.verify(sig, vb, 'pss', hn, getattr(hashlib, hn)().digest_size))
-    except Exception:   # noqa  (a primitive that raises does not accept)
-        return False
+        except Exception:   # noqa
+            return False
+        return R.ref_verify(pub, 'rsa', hn, pad, bytes(vb), sig)
+    if name is None or 'pkcs1' in name:
+        return R.ref_verify(pub, 'rsa', None, 'pkcs1', bytes(vb), sig)       # DigestInfo is already part of vb
+    return R.ref_verify(pub, 'rsa', SignatureScheme.getHash(name), 'pss', bytes(vb), sig)
